@@ -33,11 +33,14 @@ struct Case {
     transposed: bool,
     /// the crop is taken after the uncropped image has been used (hashed and drawn on a scratch handler)
     late: bool,
+    /// the image lives in a buffer that held these pixels before (drawn on the same handler, dropped, repainted in
+    /// place): shared-handler families only, not serialised
+    repaint_of: Option<Vec<Px>>,
 }
 
 impl Case {
     fn new(sub: &'static str, h: usize, w: usize, px: Vec<Px>) -> Self {
-        Case { sub, h, w, px, crop: None, bg: None, transposed: false, late: false }
+        Case { sub, h, w, px, crop: None, bg: None, transposed: false, late: false, repaint_of: None }
     }
 
     /// what a viewer sees: (height, width, row-major pixels)
@@ -117,7 +120,7 @@ impl Case {
             Some(a) if a.len() == 3 => Some([a[0].as_u64().unwrap_or(0) as u8, a[1].as_u64().unwrap_or(0) as u8, a[2].as_u64().unwrap_or(0) as u8]),
             _ => None,
         };
-        Ok(Case { sub: "replay", h, w, px, crop, bg, transposed: v["transposed"].as_bool().unwrap_or(false), late: v["late_crop"].as_bool().unwrap_or(false) })
+        Ok(Case { sub: "replay", h, w, px, crop, bg, transposed: v["transposed"].as_bool().unwrap_or(false), late: v["late_crop"].as_bool().unwrap_or(false), repaint_of: None })
     }
 }
 
@@ -189,8 +192,38 @@ impl std::io::Write for ShortWriter {
 
 /// Draw `case` on `handler` twice and evaluate the statement.
 fn check(case: &Case, handler: &mut SixelImageHandler) -> Outcome {
+    let img = match &case.repaint_of {
+        None => case.image(),
+        Some(prior) => repainted(case, prior, handler),
+    };
+    check_img(case, img, handler)
+}
+
+/// A frame buffer that is repainted in place: an image over a pixel buffer is drawn on `handler` and dropped (no
+/// erase), the buffer - now uniquely owned again - is overwritten with the case's pixels and wrapped into a new image
+/// object with the same shape: same allocation, same shape, other content.
+fn repainted(case: &Case, prior: &[Px], handler: &mut SixelImageHandler) -> Image {
+    use std::sync::Arc;
+    let to = |p: &Px| RGBA::new(p[0], p[1], p[2], p[3]);
+    let mut data: Arc<[RGBA]> = prior.iter().map(to).collect();
+    let shape = surf_n_term::Shape::from(Size::new(case.h, case.w));
+    {
+        let before = Image::from_parts(data.clone(), shape);
+        let _ = catch(|| handler.draw(&mut Vec::new(), &before, Position::new(0, 0)));
+    }
+    if let Some(slot) = Arc::get_mut(&mut data) {
+        for (dst, src) in slot.iter_mut().zip(case.px.iter()) {
+            *dst = to(src);
+        }
+        Image::from_parts(data, shape)
+    } else {
+        // the handler keeps the buffer alive: a fresh allocation is all a caller can do then
+        case.image()
+    }
+}
+
+fn check_img(case: &Case, img: Image, handler: &mut SixelImageHandler) -> Outcome {
     let mut o = Outcome::default();
-    let img = case.image();
     let (vh, vw, vpx) = case.view();
     let mut first: Vec<u8> = vec![];
     let mut second: Vec<u8> = vec![];
@@ -268,6 +301,38 @@ fn check(case: &Case, handler: &mut SixelImageHandler) -> Outcome {
                 }
                 if fourth != first {
                     add("redraw:bytes-differ-after-erase-all", "drawing the image again after erase(image, None) emits other bytes".into());
+                }
+            }
+        }
+    }
+    // the terminal passes every decoded event to its image handler (`ImageHandler::handle`): size reports with two
+    // different cell sizes, a key, a wake-up; the sixel handler has nothing to say to any of them and the next draw
+    // is the same bytes again
+    {
+        use surf_n_term::{TerminalEvent, TerminalSize};
+        let mut said = vec![];
+        let mut fifth = vec![];
+        let ok = catch(|| {
+            let mut all = true;
+            for ev in [
+                TerminalEvent::Size(TerminalSize { cells: Size::new(24, 80), pixels: Size::new(480, 800) }),
+                TerminalEvent::Resize(TerminalSize { cells: Size::new(24, 80), pixels: Size::new(720, 640) }),
+                TerminalEvent::Wake,
+                TerminalEvent::Size(TerminalSize { cells: Size::new(30, 100), pixels: Size::new(0, 0) }),
+            ] {
+                all &= handler.handle(&mut said, &ev).is_ok();
+            }
+            all && handler.draw(&mut fifth, &img, Position::new(2, 2)).is_ok()
+        });
+        match ok {
+            Err(p) => add(&p.key(), format!("handle / draw panicked: {} ({}:{})", p.message, p.file, p.line)),
+            Ok(false) => add("draw:error-result", "handle or draw returned Err while writing to a Vec".into()),
+            Ok(true) => {
+                if !said.is_empty() {
+                    add("handle:writes", format!("the sixel handler wrote {} bytes in answer to size reports / a wake-up", said.len()));
+                }
+                if fifth != first {
+                    add("redraw:bytes-differ-after-events", "drawing the image again after the handler was shown size reports with two cell sizes and a wake-up emits other bytes".into());
                 }
             }
         }
@@ -646,6 +711,13 @@ fn shared_family(name: &str) -> Vec<Case> {
                 let seen: Vec<Px> = (0..h * w).map(|k| px[(k % w) * h + k / w]).collect();
                 let mut c = Case::new("shared", h, w, seen);
                 c.transposed = true;
+                v.push(c);
+            }
+            // a buffer repainted in place between two draws (same allocation, same shape, other pixels)
+            for (h, w) in [(6usize, 12usize), (12, 6)] {
+                let other: Vec<Px> = (0..h * w).map(|i| PAL3[(i * 7 + i / 3 + 1) % 3]).collect();
+                let mut c = Case::new("shared", h, w, other);
+                c.repaint_of = Some(px.clone());
                 v.push(c);
             }
             // a crop taken from an image that has been drawn already (whatever an image object memoises on
